@@ -14,7 +14,7 @@ pub fn prop() -> Prop {
     Prop {
         id: "C07",
         level: "model_checking",
-        rule: "(a) the full table of < <= > >= = != over a 99-text universe (with -0, -0.0 next to 0, 0.0, and objects that differ only in member order, for which only the order axioms are required) of all types (equal-by-value spellings, numbers |n|<2^53 or non-integral) through the real functions, then totality, antisymmetry w.r.t. =, transitivity over all triples, congruence of =, agreement with the documented order; (b) --sort-by on all streams of <=5 (thorough <=7) rows {k,v,id} over the keys {\"b\",\"a\",2,null,absent} x 24 key/direction configurations (three repeat a selection with another direction; four use keys that are calls whose option texts share their first word or differ in one blank) (1..3 keys; omitted/ASC/DESC/asc/Desc; `=` and blank separators), all streams of <=4 (thorough <=5) rows over 16 keys of all types (0 and -0 among them) in both directions, and long streams with >11 distinct keys and >8 rows per key; (c) sort, sort_unique, sort_by, sort_by_keys, sort_by_values, sort_by_values_by on all lists/objects of <=5 (thorough <=6) elements over an 8-value universe, and on lists/objects of 20..100 elements with distinguishable ties; non-trivial = the input holds a tie between distinguishable rows, an absent key or two types; distinct by construction",
+        rule: "(a) the full table of < <= > >= = != over a 103-text universe (incl. non-integral numbers one unit in the last place apart) (with -0, -0.0 next to 0, 0.0, and objects that differ only in member order, for which only the order axioms are required) of all types (equal-by-value spellings, numbers |n|<2^53 or non-integral) through the real functions, then totality, antisymmetry w.r.t. =, transitivity over all triples, congruence of =, agreement with the documented order; (b) --sort-by on all streams of <=5 (thorough <=7) rows {k,v,id} over the keys {\"b\",\"a\",2,null,absent} x 24 key/direction configurations (three repeat a selection with another direction; four use keys that are calls whose option texts share their first word or differ in one blank) (1..3 keys; omitted/ASC/DESC/asc/Desc; `=` and blank separators), all streams of <=4 (thorough <=5) rows over 16 keys of all types (0 and -0 among them) in both directions, and long streams with >11 distinct keys and >8 rows per key; (c) sort, sort_unique, sort_by, sort_by_keys, sort_by_values, sort_by_values_by on all lists/objects of <=5 (thorough <=6) elements over an 8-value universe, and on lists/objects of 20..100 elements with distinguishable ties; non-trivial = the input holds a tie between distinguishable rows, an absent key or two types; distinct by construction",
         explanation: "rows carry ids, so permutation, stability and multi-key order are observable; the output is compared with the reference pipeline (stable lexicographic insertion sort under the documented order) and, independently, checked to be a permutation of the sortable rows in which tied neighbours keep arrival order",
         assumptions: COMMON_ASSUMPTIONS.to_vec(),
         guards: vec!["command-line-respelled", "tie-between-distinguishable-rows", "absent-key-dropped", "mixed-types", "three-keys", "desc", "more-than-11-distinct-keys", "more-than-8-rows-per-key", "order-table-complete", "function-sorts-with-ties"],
@@ -25,7 +25,8 @@ pub fn prop() -> Prop {
     }
 }
 
-const W: [&str; 99] = [
+const W: [&str; 103] = [
+    "0.3", "0.30000000000000004", "2.675", "2.6750000000000003",
     "\"null\"", "\"true\"", "\"[1]\"", "{\"a\":1,\"ab\":2}", "{\"\":0,\"a\":1}", "[[],{}]",
     "{\"b\":2,\"a\":1}", "{\"a\":5,\"b\":0}", "[{\"b\":2,\"a\":1}]", "{\"b\":0,\"a\":5}", "-0", "-0.0", "[-0]", "null", "false", "true", "\"\"", "\"a\"", "\"\\u0061\"", "\"A\"", "\"ab\"", "\"b\"", "\"é\"", "\"z\"", "\"😃\"", "\"\\uffff\"", "\"1\"", "\"10\"", "\"9\"", "0", "0.0", "-1", "-1.0",
     "1", "1.0", "1e0", "10e-1", "1.5", "15e-1", "2", "-0.5", "100", "1e2", "9007199254740991", "-9007199254740991", "1e300", "-1e300", "5e-324", "0.1", "1e-1", "3", "2.5", "10",
